@@ -91,7 +91,7 @@ def E7():
     xb = {"name": "X", "ports": [port("p", 1, "in")], "insts": [], "nets": []}
     T = {"name": "top", "ports": [port("i", 1, "in")],
          "insts": [{"name": "u1", "ref": ["la", "X"]}, {"name": "u2", "ref": ["lb", "X"]}, {"name": "u3", "ref": ["la", "X"]}],
-         "nets": [{"name": "w", "bits": [[["P", "i", 0], ["I", "u1", "p", 0]]]}]}
+         "nets": [{"name": "w", "bits": [[["P", "i", 0], ["I", "u1", "p", 0]]]}, {"name": "floating", "bits": [[]]}]}
     return {"name": "e7", "top": ["work", "top"], "top_name": "top",
             "libs": [{"name": "la", "defs": [xa]}, {"name": "lb", "defs": [xb]}, {"name": "work", "defs": [T]}]}
 
